@@ -178,6 +178,18 @@ func specials(d DT) []interface{} {
 // decode turns a case-file code into a value: codes >= 1000 pick from the
 // specials pool, everything else is a small integer.
 func decode(d DT, code int64) interface{} {
+	if code >= 2000 {
+		// small complex integers re, im in [-3,3] (for other types: the real part)
+		k := code - 2000
+		re, im := k%7-3, (k/7)%7-3
+		switch d.Name {
+		case "complex64":
+			return complex(float32(re), float32(im))
+		case "complex128":
+			return complex(float64(re), float64(im))
+		}
+		return conv(d, re)
+	}
 	if code >= 1000 {
 		sp := specials(d)
 		return sp[int(code-1000)%len(sp)]
